@@ -71,6 +71,9 @@ func verifC06Env() *verifC06 {
 		pick = [4]int{nd.Choice("sign.alg", nd.Param("nalgs", 4)), nd.Choice("cA.tokentype", 2), nd.Choice("R.scopeset", 16), nd.Choice("R.naud", nd.Param("maxaud", 2)+1)}
 	} else {
 		pick = scn[nd.Choice("scenario", len(scn))]
+		if nd.Param("algsweep", 0) == 1 {
+			pick[0] = nd.Choice("sign.alg", len(verifC06Algs)) // thorough: every signing algorithm with every scenario
+		}
 	}
 	if pick[1] == 1 {
 		cA.tokenType = AccessTokenTypeJWT
